@@ -22,9 +22,9 @@ import gen_c08 as G
 PROP = "C08"
 RULE = ("coarsen_bins: every valid bin table with 1 chromosome of length <=7 and 2 chromosomes of length <=4 (all compositions) x k in {2,3,4,5,n+1}; "
         "_greedy_prune_partition: every non-decreasing edge list from 0 of length 2..5 with values <=5 x maxlen 1..6; "
-        "coarsen_cooler: corpus (D1 longer-last-bin tables, chromosomes shorter than k, empty cooler, empty rows at chunk edges) x k in {2,3,5,n+1} x chunksize in {1,2,7,nnz+1}, "
+        "coarsen_cooler: corpus (D1 longer-last-bin tables, chromosomes shorter than k, empty cooler, empty rows at chunk edges, variable tables whose coarsening looks fixed, bin size 1, one-bin chromosomes) x k in {2,3,5,n+1} x chunksize in {1,2,7,nnz+1}, "
         "seeded random coolers (fixed / variable / longer-last / variable-that-coarsens-to-fixed tables, 1-4 chromosomes, symmetric and square storage, 9 pixel patterns) x all four k x two chunk sizes, "
-        "nproc=2 and the CLI on a few, chains k1;k2 vs k1*k2, merge/coarsen interleavings, a second value column with agg max/min; "
+        "nproc=2 and the CLI on a few, chains k1;k2 vs k1*k2 (fixed and variable tables), merge/coarsen interleavings, a second value column with agg max/min/sum incl. the D20 corpus (columns=[count,w], columns=[w]); "
         "non-trivial = nnz>0 and at least 2 old bins; distinct by input hash")
 TRUSTED = ["pandas groupby(sort=True).aggregate('sum') is modelled as the canonical aggregate (Model/Pixels.v) and observed through CoolerCoarsener",
            "create() stores the concatenation of the chunk stream (property C01/C02, observed here through the output cooler)",
